@@ -78,13 +78,13 @@ inductive UpdateOutcome
 deriving Repr, DecidableEq
 
 /-- the block list written in place, if the size difference can be absorbed by the first PADDING
-    block (`grow_padding` / `shrink_padding`; both work in `BlockSize`, i.e. at most 2^24-1) -/
+    block (`grow_padding` / `shrink_padding`; both go through `TryFrom<u64> for BlockSize` and `BlockSize::checked_add`/`checked_sub`, whose bounds are generated from the source) -/
 def adjustFor (oldSize newSize : Nat) (bl : List Block) : Option (List Block) :=
   if newSize < oldSize then
-    (if oldSize - newSize ≤ maxBlockSize
-     then adjustFirstPadding (fun n => if n + (oldSize - newSize) ≤ maxBlockSize then some (n + (oldSize - newSize)) else none) bl else none)
+    (if oldSize - newSize ≤ blockSizeFromU64Bound
+     then adjustFirstPadding (fun n => if n + (oldSize - newSize) ≤ blockSizeAddBound then some (n + (oldSize - newSize)) else none) bl else none)
   else if newSize == oldSize then some bl
-  else (if newSize - oldSize ≤ maxBlockSize
+  else (if newSize - oldSize ≤ blockSizeFromU64Bound
         then adjustFirstPadding (fun n => if newSize - oldSize ≤ n then some (n - (newSize - oldSize)) else none) bl else none)
 
 /-- `update_file(original, rebuilt, f)` on a file given as bytes: the file afterwards and the
